@@ -26,6 +26,14 @@ Theorem C15_nothing_reported_after_destruction : forall ops more, alive_ops ops 
 Proof. exact destroyed_is_silent. Qed.
 Print Assumptions C15_nothing_reported_after_destruction.
 
+(* the stateless low-level allocators: every allocator object of a type shares one count, one counter object per translation
+   unit; static initialisation creates the k counters, the program allocates and releases, static destruction destroys the
+   counters: exactly one report, made by the last counter to go, of the exact net -- and none if the net is zero *)
+Theorem C15_process_wide_report_exact : forall k body, (0 < k)%nat -> forallb is_traffic body = true ->
+  g_reports (gl_run (repeat GCounterCtor k ++ body ++ repeat GCounterDtor k)) = if gnet body =? 0 then [] else [gnet body].
+Proof. exact global_report_exact. Qed.
+Print Assumptions C15_process_wide_report_exact.
+
 Example C15_nonvacuous :
   l_reports (lrun [LAlloc 16; LAlloc 10; LAlloc 24; LDealloc 16; LMoveConstruct; LMoveAssignOnto 1; LAlloc 16; LMoveAssignOnto 0; LDestroy]) = [1; 50].
 Proof. vm_compute. reflexivity. Qed.
